@@ -128,13 +128,27 @@ Proof.
   unfold check_at in Hc. rewrite H in Hc. destruct (code a) as [i|]; [eauto|discriminate].
 Qed.
 
-Lemma handler_ok_inv a f :
-  handler_ok a f = true -> exists h, handler a = Some h /\ cert h = CExc f.
+Lemma handler_ok_lt a f :
+  handler_ok a f = true -> exists h, handler a = Some h /\ a < h /\ cert h = CExc f.
 Proof.
   unfold Verify.handler_ok. destruct (handler a) as [h|]; [|discriminate].
-  unfold exc_ok. destruct (cert h) as [|f' d' os'|f'] eqn:Ec; try discriminate.
-  intros H. apply Nat.eqb_eq in H. subst f'. eauto.
+  intros H. band2 H H1 H2. apply Nat.ltb_lt in H1.
+  unfold exc_ok in H2. destruct (cert h) as [|f' d' os'|f'] eqn:Ec; try discriminate.
+  apply Nat.eqb_eq in H2. subst f'. eauto.
 Qed.
+
+Lemma handler_ok_le_inv a f :
+  handler_ok_le exct certs a f = true -> exists h, handler a = Some h /\ a <= h /\ cert h = CExc f.
+Proof.
+  unfold Verify.handler_ok_le. destruct (handler a) as [h|]; [|discriminate].
+  intros H. band2 H H1 H2. apply Nat.leb_le in H1.
+  unfold exc_ok in H2. destruct (cert h) as [|f' d' os'|f'] eqn:Ec; try discriminate.
+  apply Nat.eqb_eq in H2. subst f'. eauto.
+Qed.
+
+Lemma handler_ok_inv a f :
+  handler_ok a f = true -> exists h, handler a = Some h /\ cert h = CExc f.
+Proof. intros H. destruct (handler_ok_lt _ _ H) as (h & H1 & _ & H2). eauto. Qed.
 
 (* ------------------------------------------------------------------ the invariant on states *)
 
@@ -152,13 +166,14 @@ Proof. intros H1 H2. exists d, os, cs. cbn. auto. Qed.
 Lemma Inv_init : Inv init.
 Proof.
   exists 0, [], []. cbn [init ip stk P F cur]. split; [left; exact cert0|].
-  unfold VerifyInv.frame_ok. split; [|split; [|split; [|split; [|split]]]].
+  unfold VerifyInv.frame_ok. split; [|split; [|split; [|split; [|split; [|split]]]]].
   - reflexivity.
   - rewrite base_0. reflexivity.
   - reflexivity.
   - exact I.
   - intros i _ H. cbn in H. lia.
   - rewrite not_entry_0. discriminate.
+  - auto.
 Qed.
 
 Lemma frame_F_nil l Pc Fc f d cs : frame_ok l Pc Fc f d [] cs -> Fc = Pc.
@@ -180,10 +195,10 @@ Qed.
 
 Lemma fault_ok s pops ip' len' d os cs :
   frame_ok (stk s) (P s) (F s) (cur s) d os cs -> pops <= avail d os ->
-  handler_ok (ip s) (cur s) = true ->
+  (exists h, handler (ip s) = Some h /\ cert h = CExc (cur s)) ->
   good (fault handler s pops ip' len').
 Proof.
-  intros HF Hp Hh. unfold fault. destruct (handler_ok_inv _ _ Hh) as (h & Eh & Ec). rewrite Eh.
+  intros HF Hp Hh. unfold fault. destruct Hh as (h & Eh & Ec). rewrite Eh.
   destruct ((h =? ip') && (length (stk s) - pops <=? len') && (len' <=? length (stk s))) eqn:E; [|exact I].
   band3 E E1 E2 E3. apply Nat.leb_le in E2, E3.
   pose proof (frame_F_le _ _ _ _ _ _ _ _ _ _ HF) as HFle.
@@ -201,7 +216,8 @@ Lemma step_AOp s ip' len' d os cs reads pops pushes :
   frame_ok (stk s) (P s) (F s) (cur s) d os cs ->
   code (ip s) = Some (AOp reads pops pushes) ->
   pops <= avail d os -> forallb (read_chk metas (cur s) d os) reads = true ->
-  cert_at (S (ip s)) (cur s) (d - pops + pushes) os -> handler_ok (ip s) (cur s) = true ->
+  cert_at (S (ip s)) (cur s) (d - pops + pushes) os ->
+  (exists h, handler (ip s) = Some h /\ cert h = CExc (cur s)) ->
   good (stepm s ip' len').
 Proof.
   intros HF Hi Hp Hr Hs Hh. unfold step. cbv zeta. rewrite Hi.
@@ -270,14 +286,15 @@ Proof.
   pose proof (frame_F_le _ _ _ _ _ _ _ _ _ _ HF) as HFle.
   destruct (length (stk s) - F s <? 1) eqn:E1; [apply Nat.ltb_lt in E1; lia|].
   rewrite (top_val _ _ _ _ _ _ _ _ _ _ HF Ha). cbn [negb].
-  destruct (is_entry ip' && (len' =? length (stk s) - 1)) eqn:E; [|eapply fault_ok; eauto].
+  destruct (is_entry ip' && (len' =? length (stk s) - 1)) eqn:E;
+    [|eapply fault_ok; eauto using handler_ok_inv].
   band2 E E2 E3.
   destruct (length (stk s) - 1 - F s =? np ip') eqn:E4; [|exact I]. apply Nat.eqb_eq in E4.
-  destruct (entry_facts _ E2) as [_ Hg]. unfold good.
+  destruct (entry_facts _ E2) as [Hg1 Hg]. unfold good.
   destruct os as [|o os'].
   - apply Inv_intro with (d := np ip' - base ip') (os := []) (cs := cs); [left; exact Hg|].
-    eapply frame_call_tail; eauto.
-  - destruct (frame_call_open _ _ _ _ _ _ _ _ _ _ _ ip' HF Ha E4) as (c & Hc).
+    eapply frame_call_tail; eauto. lia.
+  - destruct (frame_call_open _ _ _ _ _ _ _ _ _ _ _ ip' HF Ha E4 ltac:(lia)) as (c & Hc).
     apply Inv_intro with (d := np ip' - base ip') (os := []) (cs := c :: cs); [left; exact Hg|exact Hc].
 Qed.
 
@@ -294,7 +311,7 @@ Proof.
   { apply Nat.eqb_eq. rewrite Hlen. unfold Verify.base. rewrite <- Hffi. reflexivity. }
   rewrite E1. cbn [negb].
   rewrite (top_val _ _ _ _ _ _ _ _ _ _ HF) by (cbn; lia). cbn [negb].
-  destruct HF as (_ & _ & _ & Hch & _ & Hne).
+  destruct HF as (_ & _ & _ & Hch & _ & Hne & _).
   destruct cs as [|c cs']; [exfalso; now apply Hne|].
   pose proof (chain_ret _ _ _ _ _ _ _ Hch ltac:(lia)) as HF'.
   cbn [VerifyInv.chain] in Hch. destruct Hch as (H5 & Hh & _ & _ & _ & Hc & _).
@@ -312,7 +329,7 @@ Proof.
   pose proof (frame_len _ _ _ _ _ _ _ HF) as Hlen.
   destruct os as [|o os'].
   - pose proof (frame_F_nil _ _ _ _ _ _ HF) as HFP. rewrite HFP.
-    destruct HF as (_ & _ & _ & Hch & _ & Hne).
+    destruct HF as (_ & _ & _ & Hch & _ & Hne & _).
     destruct cs as [|c cs']; [exfalso; now apply Hne|].
     pose proof (chain_ret _ _ _ _ _ _ _ Hch ltac:(lia)) as HF'.
     cbn [VerifyInv.chain] in Hch. destruct Hch as (H5 & Hh & _ & _ & _ & _ & Hk & _).
@@ -419,7 +436,7 @@ Proof.
   destruct ((ip' =? r) && (len' =? P s + 1)) eqn:E.
   - unfold good, setip. apply Inv_intro with (d := 1) (os := []) (cs := cs); [left; exact Hr|].
     eapply frame_repl; eauto using allval_one; cbn; lia.
-  - eapply fault_ok; eauto.
+  - eapply fault_ok; eauto using handler_ok_inv.
 Qed.
 
 (* ------------------------------------------------------------------ dispatch on the certificate *)
@@ -432,7 +449,7 @@ Proof.
   intros HF Hi HC. unfold Verify.check_norm in HC. apply andb_true_iff in HC. destruct HC as [_ HC].
   destruct i.
   - (* AOp *) band4 HC H1 H2 H3 H4. apply Nat.leb_le in H1.
-    eapply step_AOp; eauto using succ_ok_at.
+    eapply step_AOp; eauto using succ_ok_at, handler_ok_inv.
   - (* AJump *) eapply step_AJump; eauto using succ_ok_at.
   - (* AJumpz *) band3 HC H1 H2 H3. apply Nat.leb_le in H1.
     eapply step_AJumpz; eauto using succ_ok_at.
@@ -478,9 +495,10 @@ Proof.
     band2 HC H1 H2. unfold exc_ok in H1.
     destruct (cert (S (ip s))) as [|f' d' os'|f'] eqn:Ec; try discriminate.
     apply Nat.eqb_eq in H1. subst f'.
+    destruct (handler_ok_le_inv _ _ H2) as (h & Eh & _ & Ech).
     eapply step_AOp; eauto; [lia|right; exact Ec].
   - (* ARethrow *) eapply step_ARethrow; eauto.
-  - (* AClear *) band4 HC H1 H2 H3 H4. apply Nat.eqb_eq in H1. apply negb_true_iff in H2.
+  - (* AClear *) band5 HC H1 H2 H3 H4 H5. apply Nat.eqb_eq in H1. apply negb_true_iff in H2.
     eapply step_AClear; eauto using succ_ok_at.
   - (* AUnhandled *) unfold step. cbv zeta. rewrite Hi. exact I.
 Qed.
